@@ -768,16 +768,19 @@ pub fn run_stats_failing(hdr: &Group, ops: &[Group]) -> Vec<Group> {
         let mut store = vec![0u64; cap];
         let sw = CodesStatsWrapper::<Codes>::new(Codes::Gamma);
         {
-            let mut w = BufBitWriter::<LE, _>::new(MemWordWriterSlice::new(&mut store[..]));
+            // never dropped: the Drop of a writer over a full slice panics (also while unwinding, which aborts)
+            let mut w = std::mem::ManuallyDrop::new(BufBitWriter::<LE, _>::new(MemWordWriterSlice::new(&mut store[..])));
             for op in ops {
                 let v = a(op, 1) as u64;
-                match <CodesStatsWrapper<Codes> as DynamicCodeWrite>::write(&sw, &mut w, v) {
+                match <CodesStatsWrapper<Codes> as DynamicCodeWrite>::write(&sw, &mut *w, v) {
                     Ok(_) => out.push(vec![ST_OK]),
-                    Err(_) => out.push(vec![ST_ERR]),
+                    Err(_) => {
+                        // the state of a writer after a failed write is unspecified: stop here
+                        out.push(vec![ST_ERR]);
+                        break;
+                    }
                 }
             }
-            // dropping a writer over a full slice panics in its Drop
-            std::mem::forget(w);
         }
         let (_, s) = sw.into_inner();
         out.push(flat(&s));
